@@ -9,6 +9,11 @@
 import GeoProofs.Lemmas.C06Dom
 import GeoProofs.Lemmas.C06Spec
 import GeoProofs.Lemmas.C06Translate
+import GeoProofs.Lemmas.C06PSpec
+import GeoProofs.Lemmas.C06PScale
+import GeoProofs.Lemmas.C06PHull
+import GeoProofs.Lemmas.C06PPos
+import GeoProofs.Lemmas.C06PHullA
 import Mathlib.Tactic.NormNum
 
 namespace Geo.Proofs.C06
@@ -253,5 +258,276 @@ example : ∀ w, addGeom (fun _ _ => 1) none (.collection [.point ⟨1, 2⟩, .l
   intro w h
   simp [addGeom, addGeoms, addCoord, addLine, addCentroid, addWC, WC.addAssign] at h
   rw [← h]; norm_num
+
+/-! ### T1 the centroid is the specification's centroid -/
+
+/-- [T] polygon level: `add_polygon` — exterior sub-operation, interior sub-operation, `sub_assign`
+(including its `Less => *self = b` arm when the exterior has no area), the zero-net-weight fallback
+to the exterior outline — contributes exactly what the specification's signed atoms contribute
+(`|A_ext|` at the exterior centroid, `−|A_h|` at the centroid of every interior with area; the
+outline when they cancel; the interiors, positively, under an exterior without area). For every
+accumulator state and every polygon: no validity assumption, the interiors may be larger than the
+exterior (the net weight is then negative on both sides). -/
+theorem polygon_contribution_spec (len : Pt → Pt → Rat) (o : Op) (p : Poly) :
+    addPolygon len o p = ((polyAtoms len p).map Atom.toWC).foldl addWC o := by
+  rw [addPolygon_eq]; exact polyC_equiv_atoms len p o
+
+/-- [T] accumulator level: the centroid of the `CentroidOperation` after `add_geometry` is the
+specification's centroid (weighted mean of the atoms of maximal dimension), for every geometry and
+every nesting. No hypothesis on the geometry and none on `len`: where the total weight is 0 (holes
+outweighing shells across a multi-polygon, `len` vanishing) both sides are the same `x / 0`. -/
+theorem accumulator_centroid_eq_spec (len : Pt → Pt → Rat) (g : Geom) :
+    (addGeom len none g).centroid = centroidSpec len g := acc_centroid_eq_spec len g
+
+/-- What the three closed forms (`Point`, `Line`, `Rect` do not go through `CentroidOperation`) need
+of the length function: a non-degenerate `Line` has non-zero length; a flat non-degenerate `Rect`
+has non-zero outline length. Nothing for the other seven types. -/
+def lenOK (len : Pt → Pt → Rat) : Geom → Prop
+  | .line a b => a ≠ b → len a b ≠ 0
+  | .rect mn mx => mn ≠ mx → (mn.x = mx.x ∨ mn.y = mx.y) → len mn mx + len mx mn ≠ 0
+  | _ => True
+
+theorem lenOK_of_pos (len : Pt → Pt → Rat) (hpos : ∀ a b, a ≠ b → 0 < len a b) (g : Geom) : lenOK len g := by
+  cases g with
+  | line a b => intro h; exact ne_of_gt (hpos a b h)
+  | rect mn mx =>
+    intro h _
+    have h1 := hpos mn mx h
+    have h2 := hpos mx mn (fun h' => h h'.symm)
+    exact ne_of_gt (by linarith)
+  | _ => trivial
+
+/-- [T] `centroid_eq_spec`: `Centroid::centroid` equals the specification for every geometry, every
+nesting, polygons with any holes. The only hypothesis is `lenOK` — on the abstract length, for a
+top-level `Line` / flat `Rect` only (their closed forms `(a+b)/2`, `Rect::center` never look at the
+length, the specification's weighted mean divides by it); `centroid_eq_spec_needs_len` shows it
+cannot be dropped. Total hole area ≤ exterior area is *not* needed. -/
+theorem centroid_eq_spec (len : Pt → Pt → Rat) (g : Geom) (hlen : lenOK len g) :
+    centroid len g = centroidSpec len g := by
+  rw [← acc_centroid_eq_spec]
+  cases g with
+  | point p =>
+    simp only [centroid, addGeom, addCoord, addCentroid, addWC, Op.centroid, Option.map_some, Option.some.injEq]
+    apply Pt.ext' <;> simp
+  | line a b =>
+    simp only [lenOK] at hlen
+    by_cases h : a = b
+    · subst h
+      simp only [centroid, addGeom, addLine, if_true, addCoord, addCentroid, addWC, Op.centroid, Option.map_some,
+        Option.some.injEq]
+      apply Pt.ext' <;> simp [mid]
+    · have hl := hlen h
+      simp only [centroid, addGeom, addLine, if_neg h, addCentroid, addWC, Op.centroid, Option.map_some,
+        Option.some.injEq]
+      apply Pt.ext' <;> simp <;> field_simp
+  | rect mn mx =>
+    simp only [lenOK] at hlen
+    simp only [centroid, addGeom, addRect, rectDims]
+    by_cases h1 : mn = mx
+    · subst h1
+      simp only [if_true, addCoord, addCentroid, addWC, Op.centroid, Option.map_some, Option.some.injEq]
+      apply Pt.ext' <;> simp [rectCenter]
+    · by_cases h2 : mn.x = mx.x ∨ mn.y = mx.y
+      · have hl := hlen h1 h2
+        have hne : ¬ mx = mn := fun h => h1 h.symm
+        simp only [if_neg h1, if_pos h2, addLine, if_true, if_neg hne, addCoord, addCentroid, addWC,
+          WC.addAssign, Op.centroid, Option.map_some, Option.some.injEq]
+        norm_num
+        apply Pt.ext' <;> simp [rectCenter, mid] <;> field_simp <;> ring
+      · have hA : (mx.x - mn.x) * (mx.y - mn.y) ≠ 0 := by
+          intro h0
+          rcases mul_eq_zero.1 h0 with h | h
+          · exact h2 (Or.inl (by linarith))
+          · exact h2 (Or.inr (by linarith))
+        have hx : mx.x - mn.x ≠ 0 := left_ne_zero_of_mul hA
+        have hy : mx.y - mn.y ≠ 0 := right_ne_zero_of_mul hA
+        simp only [if_neg h1, if_neg h2, addCentroid, addWC, Op.centroid, Option.map_some, Option.some.injEq]
+        apply Pt.ext' <;> simp <;> field_simp
+  | lineString cs => rfl
+  | polygon p => rfl
+  | multiPoint ps => rfl
+  | multiLineString ls => rfl
+  | multiPolygon ps => rfl
+  | triangle a b c => rfl
+  | collection gs => rfl
+
+example : lenOK (fun a b => rabs (b.x - a.x) + rabs (b.y - a.y)) (.rect ⟨0, 1⟩ ⟨3, 1⟩) := by
+  intro _ _; simp [rabs]; norm_num
+
+/-- [T] with a length that is positive on distinct points (as the Euclidean length is) the
+hypothesis is met by every geometry -/
+theorem centroid_eq_spec_of_pos (len : Pt → Pt → Rat) (hpos : ∀ a b, a ≠ b → 0 < len a b) (g : Geom) :
+    centroid len g = centroidSpec len g := centroid_eq_spec len g (lenOK_of_pos len hpos g)
+
+/-- [T] witness that `lenOK` is needed: under a length function that vanishes on a non-degenerate
+line, `Line::centroid` is the midpoint while the specification's weighted mean is `0/0`. -/
+theorem centroid_eq_spec_needs_len :
+    centroid (fun _ _ => 0) (.line ⟨0, 0⟩ ⟨2, 0⟩) ≠ centroidSpec (fun _ _ => 0) (.line ⟨0, 0⟩ ⟨2, 0⟩) := by
+  decide +kernel
+
+/-- a polygon whose holes outweigh its shell (not a valid polygon): model and specification agree
+on the negative net weight -/
+example : centroid (fun _ _ => 1)
+      (.polygon ⟨[⟨0, 0⟩, ⟨1, 0⟩, ⟨1, 1⟩, ⟨0, 1⟩, ⟨0, 0⟩], [[⟨0, 0⟩, ⟨2, 0⟩, ⟨2, 2⟩, ⟨0, 2⟩, ⟨0, 0⟩]]⟩)
+    = some ⟨7 / 6, 7 / 6⟩ := by decide +kernel
+
+/-! ### T1 translation: the zero-weight case -/
+
+/-- [T] witness that the hypothesis of `centroid_translate_partial` (final weight ≠ 0) cannot be
+dropped *in the model*: two polygons, the first with a hole larger than its shell (net weight −3),
+the second of area 3; the accumulated weight is 0, the model's `x / 0 = 0` stays at the origin when
+the geometry moves. The real code computes `0.0 / 0.0 = NaN` there (for both the geometry and its
+translate), so the property "the centroid moves with the geometry" is void for such inputs, not
+violated; with `len` positive on distinct points a zero final weight needs holes that outweigh
+their shells (see `centroid_translate` below). -/
+theorem centroid_translate_needs_weight :
+    centroid (fun _ _ => 1) (mapG (· + (⟨1, 0⟩ : Pt)) (.multiPolygon
+        [⟨[⟨0, 0⟩, ⟨1, 0⟩, ⟨1, 1⟩, ⟨0, 1⟩, ⟨0, 0⟩], [[⟨0, 0⟩, ⟨2, 0⟩, ⟨2, 2⟩, ⟨0, 2⟩, ⟨0, 0⟩]]⟩,
+         ⟨[⟨0, 0⟩, ⟨3, 0⟩, ⟨3, 1⟩, ⟨0, 1⟩, ⟨0, 0⟩], []⟩])) ≠
+      (centroid (fun _ _ => 1) (.multiPolygon
+        [⟨[⟨0, 0⟩, ⟨1, 0⟩, ⟨1, 1⟩, ⟨0, 1⟩, ⟨0, 0⟩], [[⟨0, 0⟩, ⟨2, 0⟩, ⟨2, 2⟩, ⟨0, 2⟩, ⟨0, 0⟩]]⟩,
+         ⟨[⟨0, 0⟩, ⟨3, 0⟩, ⟨3, 1⟩, ⟨0, 1⟩, ⟨0, 0⟩], []⟩])).map (· + (⟨1, 0⟩ : Pt)) := by
+  decide +kernel
+
+/-- [T] `centroid_translate`: the centroid moves with the geometry under translation, for every type
+and nesting, on the domain where no weight can cancel: `len` translation invariant and positive on
+distinct points, no polygon's holes outweigh its shell, rectangles stored min ≤ max (`WF`; both are
+guaranteed for valid geometries / by `Rect::new`). Outside this domain the final weight can be 0
+and the statement fails in the model (`centroid_translate_needs_weight`); the code returns NaN. -/
+theorem centroid_translate (len : Pt → Pt → Rat) (d : Pt)
+    (hlen : ∀ a b, len (a + d) (b + d) = len a b) (hpos : ∀ a b, a ≠ b → 0 < len a b)
+    (g : Geom) (hg : WF g) :
+    centroid len (mapG (· + d) g) = (centroid len g).map (· + d) :=
+  centroid_translate_partial len d hlen g
+    (fun w h => ne_of_gt (final_weight_pos len hpos g hg w h))
+
+example : WF (.collection [.rect ⟨0, 0⟩ ⟨2, 1⟩, .polygon
+    ⟨[⟨0, 0⟩, ⟨4, 0⟩, ⟨4, 4⟩, ⟨0, 4⟩, ⟨0, 0⟩], [[⟨1, 1⟩, ⟨1, 2⟩, ⟨2, 2⟩, ⟨2, 1⟩, ⟨1, 1⟩]]⟩]) := by
+  simp only [WF, WFList, polyWF, and_true]
+  refine ⟨by norm_num, fun _ => ?_⟩
+  norm_num [twiceAreaText, isClosed, windows2, det, sumR, rabs]
+
+/-! ### T1 uniform scaling -/
+
+/-- [T] the accumulator of a geometry scaled by `k ≠ 0` is the scaled accumulator: weights grow by
+1, |k|, k² in dimension 0, 1, 2; every branch condition (area = 0, coincident points, net weight
+= 0, dimensions) is scale invariant. `len` only needs to be homogeneous for this `k`. -/
+theorem accumulator_scale (len : Pt → Pt → Rat) (k : Rat) (hk : k ≠ 0)
+    (hlen : ∀ a b, len (Pt.smul k a) (Pt.smul k b) = rabs k * len a b) (g : Geom) :
+    addGeom len none (mapG (Pt.smul k) g) = (addGeom len none g).map (scW k) :=
+  addGeom_sc len k hk hlen g
+
+/-- [T] `centroid_scale`: the centroid scales with the geometry, for every geometry and every
+nesting, negative factors included, and with no condition on the final weight (`x / 0 = 0` scales
+like everything else). -/
+theorem centroid_scale (len : Pt → Pt → Rat) (k : Rat) (hk : k ≠ 0)
+    (hlen : ∀ a b, len (Pt.smul k a) (Pt.smul k b) = rabs k * len a b) (g : Geom) :
+    centroid len (mapG (Pt.smul k) g) = (centroid len g).map (Pt.smul k) := by
+  have key : (addGeom len none (mapG (Pt.smul k) g)).centroid =
+      ((addGeom len none g).centroid).map (Pt.smul k) := by
+    rw [addGeom_sc len k hk hlen g]
+    cases h : addGeom len none g with
+    | none => rfl
+    | some w =>
+      simp only [Op.centroid, Option.map_some]
+      rw [centroid_scW k hk w]
+  cases g with
+  | point p => simp [centroid, mapG]
+  | line a b => simp [centroid, mapG, mid_sc]
+  | rect mn mx =>
+    simp only [centroid, mapG, Option.map_some, Option.some.injEq]
+    apply Pt.ext' <;> simp [rectCenter] <;> ring
+  | lineString cs => simpa [centroid, mapG] using key
+  | polygon p => simpa [centroid, mapG] using key
+  | multiPoint ps => simpa [centroid, mapG] using key
+  | multiLineString ls => simpa [centroid, mapG] using key
+  | multiPolygon ps => simpa [centroid, mapG] using key
+  | triangle a b c => simpa [centroid, mapG] using key
+  | collection gs => simpa [centroid, mapG] using key
+
+example : ∀ a b : Pt, (fun a b : Pt => rabs (b.x - a.x)) (Pt.smul (-2) a) (Pt.smul (-2) b) =
+    rabs (-2) * (fun a b : Pt => rabs (b.x - a.x)) a b := by
+  intro a b
+  simp only [smul_x]
+  rw [← rabs_mul]; congr 1; ring
+
+/-! ### T2 hull membership -/
+
+/-- [T] `centroid_in_hull`, dimension-0 and dimension-1 results: when nothing areal was accumulated
+the centroid is an explicit convex combination (non-negative weights summing to 1) of the
+geometry's coordinates — for every type and nesting (flat polygons, polygons exactly covered by
+their holes, degenerate rectangles and triangles included). `len` must be positive on distinct
+points. -/
+theorem centroid_in_hull (len : Pt → Pt → Rat) (hpos : ∀ a b, a ≠ b → 0 < len a b) (g : Geom)
+    (hd : (addGeom len none g).dims ≤ 2) (c : Pt) (h : centroid len g = some c) :
+    InHull (coordsIter g) c := by
+  rw [centroid_eq_spec_of_pos len hpos g] at h
+  exact spec_in_hull_low len hpos g (by rw [← acc_dims_eq_maxDim]; exact hd) c h
+
+example : (addGeom (fun _ _ => 1) none (.collection [.point ⟨1, 2⟩, .line ⟨0, 0⟩ ⟨2, 0⟩])).dims ≤ 2 := by
+  decide +kernel
+
+private theorem addPolygon_noholes (len : Pt → Pt → Rat) (r : List Pt) :
+    addGeom len none (.polygon ⟨r, []⟩) = addRing len none r := by
+  simp only [addGeom, addPolygon, List.foldl_nil]
+  cases addRing len none r <;> rfl
+
+/-- [T] `centroid_in_hull`, a single polygon without holes whose ring is in convex position
+(every vertex on or to the same side of every edge; either orientation): the centroid is an explicit
+convex combination of the ring's vertices. Fan triangulation from the first vertex — which is what
+the code's shifted moment sum is: every fan triangle has non-negative (resp. non-positive) area.
+A convex ring without area falls under the dimension-0/1 case. -/
+theorem centroid_in_hull_convex (len : Pt → Pt → Rat) (hpos : ∀ a b, a ≠ b → 0 < len a b) (r : List Pt)
+    (hconv : ConvexCCW r ∨ ConvexCW r) (c : Pt) (h : centroid len (.polygon ⟨r, []⟩) = some c) :
+    InHull r c := by
+  by_cases hA : ringArea r = 0
+  · have hd : (addGeom len none (.polygon ⟨r, []⟩)).dims ≤ 2 := by
+      rw [addPolygon_noholes, addRing_eq]
+      exact foldWC_dims_le 2 none _ (by simp [Op.dims]) (ringC_flat_dims len r hA)
+    have := centroid_in_hull len hpos _ hd c h
+    refine inHull_mono ?_ this
+    intro q hq
+    simpa [coordsIter, Poly.coords] using hq
+  · cases r with
+    | nil => exact absurd (by simp [ringArea, twiceArea_nil]) hA
+    | cons s t =>
+      have hc : centroid len (.polygon ⟨s :: t, []⟩) =
+          some (Pt.divS (ringAccum s (s :: t)) (6 * ringArea (s :: t)) + s) := by
+        have hr : rabs (ringArea (s :: t)) ≠ 0 := fun h0 => hA ((rabs_eq_zero_iff _).1 h0)
+        show (addGeom len none (.polygon ⟨s :: t, []⟩)).centroid = _
+        rw [addPolygon_noholes]
+        simp only [addRing, if_neg hA, addCentroid, addWC, Op.centroid, Option.map_some, Option.some.injEq]
+        apply Pt.ext' <;> simp <;> field_simp
+      rw [hc] at h
+      rw [← Option.some.inj h]
+      exact convex_ring_centroid_in_hull s t hconv hA
+
+example : ConvexCCW [⟨0, 0⟩, ⟨2, 0⟩, ⟨2, 2⟩, ⟨0, 2⟩, ⟨0, 0⟩] := by
+  intro l hl p hp
+  simp [windows2] at hl hp
+  rcases hl with rfl | rfl | rfl | rfl <;> rcases hp with rfl | rfl | rfl | rfl | rfl <;>
+    norm_num [crossProd]
+
+/-- [T] `centroid_in_hull`, areal results whose areal members are all convex (`ConvexG`: polygons
+without holes with the ring in convex position, rectangles stored min ≤ max, triangles), alone, in
+multi-polygons or nested in collections together with points and lines of any kind: the centroid is
+an explicit convex combination of the geometry's coordinates, whatever the dimension of the result.
+(Polygons with holes carry negative weights; for them hull membership is only checked by the
+driver.) -/
+theorem centroid_in_hull_convex_members (len : Pt → Pt → Rat) (hpos : ∀ a b, a ≠ b → 0 < len a b)
+    (g : Geom) (hg : ConvexG g) (c : Pt) (h : centroid len g = some c) : InHull (coordsIter g) c := by
+  rw [centroid_eq_spec_of_pos len hpos g] at h
+  exact spec_in_hull_convex len hpos g hg c h
+
+example : ConvexG (.collection [.point ⟨5, 5⟩, .rect ⟨0, 0⟩ ⟨2, 1⟩, .triangle ⟨0, 0⟩ ⟨1, 0⟩ ⟨0, 1⟩,
+    .multiPolygon [⟨[⟨0, 0⟩, ⟨2, 0⟩, ⟨0, 2⟩, ⟨0, 0⟩], []⟩]]) := by
+  simp only [ConvexG, ConvexGList, polyConvex, and_true, true_and]
+  refine ⟨by norm_num, ?_⟩
+  intro p hp
+  simp at hp; subst hp
+  refine ⟨rfl, Or.inl ?_⟩
+  intro l hl q hq
+  simp [windows2] at hl hq
+  rcases hl with rfl | rfl | rfl <;> rcases hq with rfl | rfl | rfl | rfl <;> norm_num [crossProd]
 
 end Geo.Proofs.C06
